@@ -17,7 +17,7 @@ class sources(DataStreamProcessor):
         source: DataStream
         for source in self.sources:
             for res in source.res_iter:
-                yield res
+                yield res.it
 
     def process_datapackage(self, dp: Package):
         super().process_datapackage(dp)
@@ -26,6 +26,18 @@ class sources(DataStreamProcessor):
         for source in self.sources:
             res1 = descriptor.pop('resources', [])
             res2 = source.dp.descriptor['resources']
+            # every source numbers its resources on its own (res_1, ...): keep the names unique
+            names = set(res['name'] for res in res1)
+            for index, res in enumerate(res2, start=len(res1) + 1):
+                name = res['name']
+                while name in names:
+                    name = 'res_{}'.format(index)
+                    index += 1
+                if name != res['name']:
+                    if res.get('path') == '{}.csv'.format(res['name']):
+                        res['path'] = '{}.csv'.format(name)
+                    res['name'] = name
+                names.add(name)
             descriptor.update(source.dp.descriptor)
             descriptor['resources'] = res1 + res2
         dp.commit()
